@@ -311,7 +311,77 @@ pub fn check_now_leap(n: i32, h: u32, mi: u32, us: u32) -> Result<(), String> {
     out.map_err(|m| format!("with the clock at {:04}-{:02}-{:02} {h:02}:{mi:02}:59 + {us} us (a leap second): {m}", r.y, r.m, r.d))
 }
 
+/// The clock-reading constructors WITHOUT the hook, under a process time zone chosen so that the
+/// local calendar date differs from the UTC date right now (UTC+13 or UTC-13): all five must
+/// report the same, local, date. The wall clock only selects the zone; the oracle is the agreement
+/// of the five reads with each other and with system time shifted by the zone offset.
+/// Returns Ok(false) when the zone setting is not honoured in this environment (nothing to judge).
+pub fn check_real_clock_coherence() -> Result<bool, String> {
+    use std::time::{SystemTime, UNIX_EPOCH};
+    ad::clock_clear();
+    let saved = std::env::var("TZ").ok();
+    let secs = SystemTime::now().duration_since(UNIX_EPOCH).map_err(|e| e.to_string())?.as_secs() as i64;
+    let hour = secs.rem_euclid(86_400) / 3600;
+    // POSIX TZ: "XXX-13" is 13 hours EAST of UTC (local = UTC + 13)
+    let (tz, shift) = if hour >= 12 { ("VRF-13", 13 * 3600i64) } else { ("VRF+13", -13 * 3600i64) };
+    std::env::set_var("TZ", tz);
+    let mut out = Ok(false);
+    for _attempt in 0..4 {
+        let r = guarded(|| {
+            let d0 = Date::now().map(|d| d.days());
+            let ts = Timestamp::now().map(|x| x.usecs().div_euclid(86_400_000_000) as i32);
+            let od = OracleDate::now().map(|x| x.usecs().div_euclid(86_400_000_000) as i32);
+            let t = ad::time(43_200_000_000);
+            let a = Timestamp::try_from(t).map(|x| x.usecs().div_euclid(86_400_000_000) as i32);
+            let b = OracleDate::try_from(t).map(|x| x.usecs().div_euclid(86_400_000_000) as i32);
+            let d1 = Date::now().map(|d| d.days());
+            (d0, ts, od, a, b, d1)
+        });
+        let secs2 = SystemTime::now().duration_since(UNIX_EPOCH).map_err(|e| e.to_string())?.as_secs() as i64;
+        match r {
+            Err(p) => {
+                out = Err(format!("clock-reading constructors without the hook under TZ={tz}: {p}"));
+                break;
+            }
+            Ok((Ok(d0), Ok(ts), Ok(od), Ok(a), Ok(b), Ok(d1))) => {
+                let local_before = (secs + shift).div_euclid(86_400) as i32;
+                let local_after = (secs2 + shift).div_euclid(86_400) as i32;
+                if d0 != d1 || local_before != local_after {
+                    continue; // a midnight passed during the reads: try again
+                }
+                let utc = secs.div_euclid(86_400) as i32;
+                let all = [d0, ts, od, a, b];
+                if all.iter().all(|x| *x == utc) && utc != local_before {
+                    out = Ok(false); // the zone setting is not honoured here
+                    break;
+                }
+                if all.iter().any(|x| *x != local_before) {
+                    out = Err(format!("under TZ={tz} (local date = day {local_before}, UTC date = day {utc}) the un-hooked clock readers disagree: Date::now {d0}, Timestamp::now {ts}, OracleDate::now {od}, Timestamp::try_from(Time) {a}, OracleDate::try_from(Time) {b} - all must report the current LOCAL date"));
+                } else {
+                    out = Ok(true);
+                }
+                break;
+            }
+            Ok(other) => {
+                out = Err(format!("a clock-reading constructor failed without the hook under TZ={tz}: {other:?}"));
+                break;
+            }
+        }
+    }
+    match saved {
+        Some(v) => std::env::set_var("TZ", v),
+        None => std::env::remove_var("TZ"),
+    }
+    out
+}
+
 pub fn eval(case: &Case) -> Verdict {
+    if case.kind == "real_clock" {
+        return match check_real_clock_coherence() {
+            Ok(_) => Verdict::Pass,
+            Err(m) => Verdict::Fail(m),
+        };
+    }
     let i = &case.i;
     let r = match case.kind.as_str() {
         "default" => check_default(Kind::from_index(i[0] as usize), Clock { n: i[1] as i32, tod: i[2] as i64 }, &i[3..]),
@@ -421,6 +491,14 @@ pub fn run(ctx: &Ctx) -> (Stats, Report) {
     run_replays(P, &mut st, &eval);
     st.section("replays", &mut mark);
     let seed = ctx.seed;
+    // before any worker thread exists: the un-hooked readers under a shifted process time zone
+    st.evaluations += 5;
+    match check_real_clock_coherence() {
+        Ok(true) => st.class_n("real-clock-readers-agree-on-the-local-date-under-a-shifted-zone", 5),
+        Ok(false) => st.class_n("process-time-zone-not-honoured-here-skipped", 5),
+        Err(m) => st.fail(0, Case::new(P, "real_clock", vec![], vec![]), m),
+    }
+    st.section("real_clock_local_date", &mut mark);
     // injected times of day: midnight, inside the first second, mid-day with a fraction, the last
     // microsecond. Thorough: all of them under every date; quick: one per date, rotating with the
     // date, so that every class meets a fifth of all dates (before and after 1970).
@@ -613,7 +691,7 @@ pub fn run(ctx: &Ctx) -> (Stats, Report) {
     let _ = Time::ZERO;
 
     let rep = Report {
-        rule: format!("The injected clock (cargo feature verif-hooks, thread-local) ranges over ALL 3,652,059 possible current local dates x {} time(s) of day (thorough: midnight, 00:00:00.5, 12:34:56.789012, 23:59:59.999999 under every date; quick: one of those five classes incl. 00:00:00.000001 per date, rotating with the date). Under each clock: partial pictures \"\", DD (1, 28..31, month length +-), MM, MM-DD, MON DD, YYYY, YYYY-DD, DDD (incl. 365/366), Y / YY / YYY with value classes (all values for Y/YY in thorough) alone and with month/day, with a leading '+' and with a '-' (which denotes no date), HH24:MI, HH:MI AM with empty text, SS, .FF, DD HH:MI PM, an omission grid (12 time-part pictures in several field orders, meridian before or after the 12-hour field, text ending after every token; also swept exhaustively under 7 clocks), rotated over Date / Timestamp / OracleDate; Date::now, Timestamp::now, OracleDate::now, Timestamp::try_from(Time), OracleDate::try_from(Time); the same constructors with the clock inside a leap second (second 59 + 1,000,000..1,999,999 us: an error or an in-range value within those two seconds). Every parse goes through T::parse, a fresh Formatter and a long-lived Formatter (compiled once per thread and picture, so it has parsed under many other current dates before). Oracle: model defaults (year and month from the clock, day 1, time 0, 12 for an omitted 12-hour field, short years completed with the leading digits of the clock year) validated by the walked calendar (so DD=31 in a 30-day current month, DDD=366 in a common current year, a completed year 0 are errors). Complete pictures (7 shapes x date pool) must give the identical value under 9 different clocks incl. both range ends. Non-trivial = clock at a month end / year end / century-end year / 29 Feb / year < 1000 / year 9999; distinct by enumeration.", tods.len()),
+        rule: format!("The injected clock (cargo feature verif-hooks, thread-local) ranges over ALL 3,652,059 possible current local dates x {} time(s) of day (thorough: midnight, 00:00:00.5, 12:34:56.789012, 23:59:59.999999 under every date; quick: one of those five classes incl. 00:00:00.000001 per date, rotating with the date). Under each clock: partial pictures \"\", DD (1, 28..31, month length +-), MM, MM-DD, MON DD, YYYY, YYYY-DD, DDD (incl. 365/366), Y / YY / YYY with value classes (all values for Y/YY in thorough) alone and with month/day, with a leading '+' and with a '-' (which denotes no date), HH24:MI, HH:MI AM with empty text, SS, .FF, DD HH:MI PM, an omission grid (12 time-part pictures in several field orders, meridian before or after the 12-hour field, text ending after every token; also swept exhaustively under 7 clocks), rotated over Date / Timestamp / OracleDate; Date::now, Timestamp::now, OracleDate::now, Timestamp::try_from(Time), OracleDate::try_from(Time); the same constructors with the clock inside a leap second (second 59 + 1,000,000..1,999,999 us: an error or an in-range value within those two seconds). Every parse goes through T::parse, a fresh Formatter and a long-lived Formatter (compiled once per thread and picture, so it has parsed under many other current dates before). Once per run, before any worker thread starts, the five clock readers are also called WITHOUT the hook under a process time zone 13 hours east or west of UTC (whichever makes the local date differ from the UTC date at that moment): they must agree on the local date. Oracle: model defaults (year and month from the clock, day 1, time 0, 12 for an omitted 12-hour field, short years completed with the leading digits of the clock year) validated by the walked calendar (so DD=31 in a 30-day current month, DDD=366 in a common current year, a completed year 0 are errors). Complete pictures (7 shapes x date pool) must give the identical value under 9 different clocks incl. both range ends. Non-trivial = clock at a month end / year end / century-end year / 29 Feb / year < 1000 / year 9999; distinct by enumeration.", tods.len()),
         assumptions: vec!["the hook only replaces the value of chrono::Local::now().naive_local() at the six places the library reads it; with the feature off the code is the original".into()],
         exhaustive: true,
         extra: Default::default(),
